@@ -3,6 +3,7 @@ package rules
 import (
 	"fmt"
 	"go/constant"
+	"go/token"
 	"sort"
 	"strings"
 
@@ -171,6 +172,7 @@ func runC03(c *Ctx) {
 		}
 		L.ControlMustFire("tainted-alloc", fired && silent, "controls/taint.go: make([]string, n) with n from ParseInt must be flagged, the bounded variant must not")
 	}
+	c.checkNonEmptyResult()
 	L.Note("functions in parser scope: %d; token loops: %d", len(scope), nTok)
 	L.Trusts("sparse conditional constant propagation; once the reader is exhausted every later read fails (bufio.Reader semantics)")
 	L.Assumes("steady-state lemma: after a scan has returned EOF every later scan returns EOF; a loop that re-reads one pushed-back non-EOF token without progress is a different defect class and is not decided")
@@ -187,4 +189,171 @@ var c03Justified = []bceJustified{
 	{"io/phylip.(*Parser).Parse", "seqs[i]", "the first loop appends exactly one name and one buffer per i in [0, nbseq) or returns an error; later loops use i < nbseq = len(seqs); the last loop ranges over names with len(names) == len(seqs)"},
 	{"io/phylip.(*Parser).Parse", "seqs[0]", "reached only after the first loop completed nbseq >= 1 iterations (nbseq == 0 and nbseq < 0 are rejected before), each of which appended one buffer"},
 	{"align.(*PartitionSet).AddRange", "ps.partitions[i]", "proved by rule table-index-safe (linear bounds with the struct invariant length == len(partitions))"},
+}
+
+// checkNonEmptyResult: every return of a format parser that hands back a
+// non-nil container with a nil error is dominated by a test that rejects an
+// empty result.
+func (c *Ctx) checkNonEmptyResult() {
+	L := c.L
+	L.Rule("nonempty-result", "every return of (*Parser).Parse / parseGeneric with a nil error and a non-nil container is dominated by the false branch of an emptiness test whose true branch returns an error: NbSequences() == 0 (or < 1), len(collected names/sequences) == 0, or the header's sequence count == 0")
+	L.Rule("empty-sentinel", "an alignment without sequences has Length() == -1: no comparison of Alignment.Length() with the constant 0 is used as an emptiness test")
+	targets := []struct{ rel, fn string }{
+		{"io/fasta", "parseGeneric"}, {"io/phylip", "Parse"}, {"io/nexus", "Parse"}, {"io/clustal", "Parse"}, {"io/stockholm", "Parse"},
+	}
+	for _, t := range targets {
+		r := c.fn(t.rel, "*Parser", t.fn)
+		if !r.ok() {
+			continue
+		}
+		fn := r.F
+		// emptiness guards
+		var guards []*ssa.BasicBlock // the block reached when NOT empty
+		allInstrs(fn, func(in ssa.Instruction) {
+			ifi, ok := in.(*ssa.If)
+			if !ok {
+				return
+			}
+			bo, ok := ifi.Cond.(*ssa.BinOp)
+			if !ok || !isIntType(bo.X.Type()) {
+				return
+			}
+			k, isK := constInt(bo.Y)
+			if !isK {
+				return
+			}
+			empty := (bo.Op == token.EQL && k == 0) || (bo.Op == token.LSS && k == 1) || (bo.Op == token.LEQ && k == 0)
+			if !empty {
+				return
+			}
+			// what is tested
+			okSubject := false
+			switch x := bo.X.(type) {
+			case *ssa.Call:
+				cc := x.Common()
+				if builtinName(cc) == "len" {
+					okSubject = true
+				}
+				name := ""
+				if cc.IsInvoke() {
+					name = cc.Method.Name()
+				} else if f := cc.StaticCallee(); f != nil {
+					name = f.Name()
+				}
+				if name == "NbSequences" {
+					okSubject = true
+				}
+			case *ssa.Extract:
+				okSubject = parsedNumber(x)
+			case *ssa.Phi:
+				okSubject = parsedNumber(x)
+			}
+			if !okSubject {
+				return
+			}
+			// the true branch must leave with an error
+			tb := ifi.Block().Succs[0]
+			leaves := false
+			for _, e := range returnEdges(fn) {
+				if e.kind == "err" && (e.block == tb || tb.Dominates(e.block)) {
+					leaves = true
+				}
+			}
+			if leaves {
+				guards = append(guards, ifi.Block().Succs[1])
+			}
+		})
+		n := 0
+		for _, e := range returnEdges(fn) {
+			if e.kind == "err" {
+				continue // returns a freshly created error
+			}
+			// (a return whose error value is not a known constructor may succeed: it must be guarded too,
+			// unless it sits on the true branch of `thatError != nil`)
+			if idx := errResultIndex(fn); idx >= 0 && idx < len(e.ret.Results) {
+				ev := e.ret.Results[idx]
+				onErrBranch := false
+				for d := e.block; d != nil; d = d.Idom() {
+					for _, p := range d.Preds {
+						ifi, ok := p.Instrs[len(p.Instrs)-1].(*ssa.If)
+						if !ok || p.Succs[0] != d || len(d.Preds) != 1 {
+							continue
+						}
+						if bo, ok := ifi.Cond.(*ssa.BinOp); ok && bo.Op == token.NEQ {
+							if k, ok := bo.Y.(*ssa.Const); ok && k.IsNil() {
+								if bo.X == ev || throughPhis(ev, false)[bo.X] {
+									onErrBranch = true
+								}
+							}
+						}
+					}
+				}
+				if onErrBranch {
+					continue
+				}
+			}
+			// end-of-stream marker of Phylip: return nil, nil
+			if len(e.ret.Results) == 2 {
+				if k, ok := e.ret.Results[0].(*ssa.Const); ok && k.IsNil() {
+					continue
+				}
+			}
+			n++
+			ok := false
+			for _, g := range guards {
+				if g == e.block || g.Dominates(e.block) {
+					ok = true
+				}
+			}
+			name := "success return"
+			if ok {
+				L.OK("nonempty-result", r.label, name, c.P.Pos(e.ret.Pos()), "dominated by an emptiness test whose true branch returns an error")
+			} else {
+				L.Bad("nonempty-result", r.label, name, c.P.Pos(e.ret.Pos()), "a success return is reachable without any test that the result holds at least one sequence: a header-only or truncated file is reported as a valid, empty alignment")
+			}
+		}
+		if n == 0 {
+			L.Unknown("nonempty-result", r.label, "success return", c.P.Pos(fn.Pos()), "no success return found")
+		}
+	}
+	L.Floor("nonempty-result", 5, "five format parsers")
+	// sentinel: Length() compared with 0
+	nS := 0
+	for _, fn := range c.P.SrcFuncs() {
+		allInstrs(fn, func(in ssa.Instruction) {
+			bo, ok := in.(*ssa.BinOp)
+			if !ok || (bo.Op != token.EQL && bo.Op != token.NEQ && bo.Op != token.LEQ && bo.Op != token.GTR) {
+				return
+			}
+			k, isK := constInt(bo.Y)
+			if !isK || k != 0 {
+				return
+			}
+			call, ok := bo.X.(*ssa.Call)
+			if !ok {
+				return
+			}
+			cc := call.Common()
+			name := ""
+			var recv ssa.Value
+			if cc.IsInvoke() {
+				name, recv = cc.Method.Name(), cc.Value
+			} else if f := cc.StaticCallee(); f != nil && len(cc.Args) > 0 {
+				name, recv = f.Name(), cc.Args[0]
+			}
+			if name != "Length" || recv == nil {
+				return
+			}
+			n := namedOf(recv.Type())
+			if n == nil || (n.Obj().Name() != "Alignment" && n.Obj().Name() != "align") {
+				return
+			}
+			if bo.Op == token.LEQ || bo.Op == token.GTR {
+				return // `<= 0` / `> 0` also cover -1
+			}
+			nS++
+			L.Bad("empty-sentinel", c.P.FuncName(fn), "Length() "+bo.Op.String()+" 0", c.P.Pos(bo.Pos()), "Length() of an alignment without sequences is -1, so this test never sees the empty alignment")
+		})
+	}
+	L.Trivial("empty-sentinel", "repository", "all comparisons of Alignment.Length() with 0", "-", fmt.Sprintf("%d found", nS))
 }
